@@ -10,6 +10,7 @@ import (
 	"go/token"
 	"go/types"
 	"math/big"
+	"os"
 	"sort"
 	"strconv"
 	"strings"
@@ -249,6 +250,27 @@ func (x *Exec) bodyLogged(st *State, f *F, t string) *F {
 	return b
 }
 
+// mayAlias: the index term's sequence a may denote the quantifier's sequence b (syntactically equal, contained, or via append aliases)
+func (x *Exec) mayAlias(a, b string, depth int) bool {
+	if a == b || (len(b) > 3 && strings.Contains(a, b)) {
+		return true
+	}
+	if depth > 4 {
+		return false
+	}
+	for _, c := range x.alias[a] {
+		if x.mayAlias(c, b, depth+1) {
+			return true
+		}
+	}
+	for _, c := range x.alias[b] {
+		if c == a {
+			return true
+		}
+	}
+	return false
+}
+
 // SeqRef: a quantifier body reads sequence Arr at absolute index Off + boundvar
 type SeqRef struct{ Arr, Off string }
 
@@ -268,7 +290,7 @@ func (x *Exec) candidates(f *F, terms []IdxT) []string {
 			continue
 		}
 		for _, s := range seqs {
-			if s.Arr == it.Seq || strings.Contains(s.Arr, "?probe") {
+			if strings.Contains(s.Arr, "?probe") || x.mayAlias(it.Seq, s.Arr, 0) {
 				add(sSub(it.T, s.Off))
 			}
 		}
@@ -284,7 +306,7 @@ func (x *Exec) candidates(f *F, terms []IdxT) []string {
 		if si != sj {
 			return si
 		}
-		return false
+		return len(out[i]) < len(out[j])
 	})
 	return out
 }
@@ -313,6 +335,12 @@ func (x *Exec) instantiate(f *F, terms []IdxT, depth int, out *[]string) {
 			return
 		}
 		n := 0
+		if os.Getenv("GOVC_DEBUG_CAND") != "" && depth == 0 {
+			fmt.Fprintf(os.Stderr, "CAND for %s in [%s,%s): seqs=%v\n", f.Var, truncate(f.Lo, 30), truncate(f.Hi, 60), x.seqsOf(f))
+			for _, t := range x.candidates(f, terms) {
+				fmt.Fprintf(os.Stderr, "   %s\n", truncate(t, 200))
+			}
+		}
 		for _, t := range x.candidates(f, terms) {
 			n++
 			if (depth == 0 && n > 24) || (depth == 1 && n > 14) {
